@@ -222,7 +222,13 @@ class Prerequisite:
         self._cached_satisfied = None
         if '|' in expr:
             # Make a Python expression so we can eval() the logic.
-            for t_output in self._satisfied:
+            # Longest message first, so that a message contained in another
+            # (e.g. "1/a x" in "-1/a x" or in "1/a x-2") cannot clobber it.
+            for t_output in sorted(
+                self._satisfied,
+                key=lambda t: len(self.MESSAGE_TEMPLATE % t),
+                reverse=True,
+            ):
                 # Use '\b' in case one task name is a substring of another
                 # and escape special chars ('.', timezone '+') in task IDs.
                 msg = self.MESSAGE_TEMPLATE % t_output
